@@ -144,7 +144,9 @@ func opPPPipe(r *rand.Rand, n int, tier string) {
 		case 2: // the line that ends the dump arrives later
 			pieces = []string{pre + dump[:len(dump)-1], "\nx\n", post}
 			tails = []string{pre, "x\n", post}
-		default: // one line at a time
+		default: // one line at a time, the first pieces being very short complete lines ("\n", "a\n")
+			pieces = append(pieces, "\n", "a\n")
+			tails = append(tails, "\n", "a\n")
 			ls := strings.SplitAfter(pre+post, "\n")
 			for _, l := range ls {
 				if l != "" {
